@@ -120,7 +120,7 @@ func cmdVerify(args []string) {
 			}
 		}
 		for _, k := range sortedKeys(prog.cs.Lemmas) {
-			if !prog.cs.Lemmas[k].Axiom {
+			if !prog.cs.Lemmas[k].Axiom && prog.pkgs[prog.cs.Lemmas[k].PkgPath] != nil {
 				keys = append(keys, "lemma:"+k)
 			}
 		}
